@@ -20,7 +20,7 @@ from props import c20_memo
 from vlib.core import Leg, Result, exc_failure, VERIF
 
 ID = 'C20'
-RULE = ('memo oracle: the results of 40 probes (parse shape, split, tokenize, every filter) are computed once in a fresh interpreter. history leg (model-based): drawn '
+RULE = ('memo oracle: the results of 47 probes (parse shape, split, tokenize, every filter, both values of options kept in filter instances) are computed in one fresh interpreter each. history leg (model-based): drawn '
         'operation sequences (<=25 steps) of {call on drawn input/options; call with an invalid option (raises); call on over-deep input under a lowered recursion '
         'limit (raises); call on input nested 60/120/300 levels at the normal limit; parsestream consumed for j statements then closed / dropped / kept; tokenizer generator abandoned; lexer reconfiguration (clear, '
         'set_SQL_REGEX on a slice, add_keywords) which switches the model to "reconfigured" until default_initialization(); get_default_instance identity}; after every '
@@ -39,8 +39,13 @@ def memo():
     global _memo
     if _memo is None:
         env = dict(os.environ, PYTHONHASHSEED='0', PYTHONDONTWRITEBYTECODE='1')
-        out = subprocess.check_output([sys.executable, os.path.join(VERIF, 'props', 'c20_memo.py')], env=env, text=True)
-        _memo = json.loads(out)
+        from concurrent.futures import ThreadPoolExecutor
+
+        def one(i):
+            # a fresh interpreter per probe: the library has seen no other call
+            return json.loads(subprocess.check_output([sys.executable, os.path.join(VERIF, 'props', 'c20_memo.py'), str(i)], env=env, text=True))
+        with ThreadPoolExecutor(max_workers=16) as ex:
+            _memo = list(ex.map(one, range(len(c20_memo.PROBES))))
     return _memo
 
 
